@@ -186,6 +186,12 @@ func (_this *ptrBuilder) BuildBeginNodeContents(ctx *Context) {
 }
 
 func (_this *ptrBuilder) NotifyChildContainerFinished(ctx *Context, value reflect.Value) {
+	if !value.CanAddr() {
+		// Slices and maps are built as plain values: give the pointer something to point to.
+		holder := reflect.New(value.Type()).Elem()
+		holder.Set(value)
+		value = holder
+	}
 	ctx.UnstackBuilderAndNotifyChildFinished(value.Addr())
 }
 
